@@ -41,11 +41,21 @@ func effectiveDeadzone(m *MappingDef, a *AxisDef) float64 {
 }
 
 func exactShape(a *AxisDef, dzf float64, raw int32) shaped {
+	// the position within the travel the axis reports: an axis without negative values travels from its minimum - which need
+	// not be 0 (a 1..255 stick, a touchpad reporting 1472..5472) - to its maximum; an axis with negative values has its centre
+	// at 0 and two sides of possibly different length, of which one may be missing (-255..0)
 	var n *big.Rat
-	if raw < 0 {
-		n = big.NewRat(int64(raw), -int64(a.Min)) // raw/|min|, min < 0 whenever raw < 0 is in range
-	} else {
+	switch {
+	case a.Min >= 0 && a.Max > a.Min:
+		n = big.NewRat(int64(raw)-int64(a.Min), int64(a.Max)-int64(a.Min))
+	case a.Min >= 0:
+		n = new(big.Rat)
+	case raw < 0:
+		n = big.NewRat(int64(raw), -int64(a.Min)) // raw/|min|
+	case a.Max > 0:
 		n = big.NewRat(int64(raw), int64(a.Max))
+	default:
+		n = new(big.Rat)
 	}
 	sh := shaped{CanNeg: a.Min < 0}
 	// deadzone_at_center moves the deadzone of an axis that starts at 0 to the middle of its range; a signed axis already
